@@ -112,6 +112,7 @@ pub struct Snapshot {
     pub kv: Vec<(Vec<u8>, Vec<u8>)>,
     pub block: BlockInfo,
     pub paused: bool,
+    pub oracle_model: Vec<u128>,
 }
 
 #[derive(Clone, Debug)]
@@ -148,6 +149,8 @@ pub struct World {
     pub mock_feed_code: u64,
     /// model of the engine's pause flag (set from successful SetPause transactions)
     pub paused: bool,
+    /// last price the harness submitted to each vAMM's oracle
+    pub oracle_model: Vec<u128>,
 }
 
 fn c_cw20() -> Box<dyn Contract<Empty>> {
@@ -568,6 +571,7 @@ impl World {
             vamm_code,
             mock_feed_code,
             paused: false,
+            oracle_model: cfg.vamms.iter().map(|v| v.oracle_price).collect(),
         };
         // a deployment is used from the block after its creation (see DESIGN C15)
         w.next_block(15, 1);
@@ -611,6 +615,7 @@ impl World {
             kv: self.dump(),
             block: self.app.block_info(),
             paused: self.paused,
+            oracle_model: self.oracle_model.clone(),
         }
     }
 
@@ -626,6 +631,7 @@ impl World {
         });
         self.app.set_block(snap.block.clone());
         self.paused = snap.paused;
+        self.oracle_model = snap.oracle_model.clone();
     }
 
     pub fn set_time(&mut self, height: u64, secs: u64) {
@@ -796,7 +802,7 @@ impl World {
         let key = self.keys[v].clone();
         let oracle = self.oracles[v].clone();
         let owner = self.owner.clone();
-        self.exec(
+        let r = self.exec(
             &owner,
             &oracle,
             &feed::ExecuteMsg::AppendPrice {
@@ -806,7 +812,11 @@ impl World {
             },
             &[],
             None,
-        )
+        );
+        if r.ok {
+            self.oracle_model[v] = price;
+        }
+        r
     }
     pub fn funds(&self, amount: u128) -> Vec<Coin> {
         if self.cfg.native && amount > 0 {
